@@ -194,14 +194,22 @@ class Judge:
         self.hist = {}
         self.cxx_crashes = []
         self.disp_lines = []
+        self.reported = {}
+        self.suppressed = 0
 
     def count(self, key):
         self.hist[key] = self.hist.get(key, 0) + 1
 
     def viol(self, what, site, tags, args, line):
+        key = tuple(tags)
+        if self.reported.get(key, 0) >= 3:          # same kind of failure on yet another entry point: count only
+            if self.ctx.match_known({"site": site, "tags": tags}) is None:
+                self.suppressed += 1
+                return
         rep = {"entry_point": site, "harness_args": args, "observed": line, "repo": self.repo,
                "how": "VERIF_REPO=%s bin/check C20 --replay <this file>  (runs the harness with harness_args)" % self.repo}
-        self.ctx.violation(what, rep, found_input=True, record={"site": site, "tags": tags})
+        if self.ctx.violation(what, rep, found_input=True, record={"site": site, "tags": tags}):
+            self.reported[key] = self.reported.get(key, 0) + 1
 
     def note(self, line, nontrivial):
         self.events += 1
@@ -451,6 +459,7 @@ def run(ctx):
     diag = diagnose(tab)
     ctx.cov["full_statement_failures"] = len(diag)
     demo = []
+    static_reported, static_suppressed = {}, 0
     diag_theorems = set()
     seen = set()
     for thm, site, tags, what, extra in diag:
@@ -459,10 +468,15 @@ def run(ctx):
         if key in seen and site in ("ppl_io_asprint",):
             continue
         seen.add(key)
+        kind = (thm, tuple(tags[:1]))
+        if static_reported.get(kind, 0) >= 3 and ctx.match_known({"site": site, "tags": tags}) is None:
+            static_suppressed += 1
+            continue
         rep = {"theorem": "C20." + thm, "entry_point": extra.get("entry", site), "repo": REPO, "source": "table regenerated from the clang AST"}
         rep.update({k: v for k, v in extra.items() if k != "entry"})
         if ctx.violation("C20.%s fails on the regenerated table: %s" % (thm, what), rep, found_input=True, record={"site": site, "tags": tags}):
             demo.append((thm, site))
+            static_reported[kind] = static_reported.get(kind, 0) + 1
 
     # ---- a theorem that no longer checks although python finds nothing wrong
     if broken:
@@ -537,6 +551,7 @@ def run(ctx):
              "operation on a clone; distinct by sha256 of the journal line without its sequence number",
         samples=J.samples, harness_histogram=dict(sorted(J.hist.items())),
         traces_validated_against_impl=len([1 for k in J.hist if k.startswith("dispatch ok")]) and J.hist.get("dispatch ok", 0),
+        further_failures_of_an_already_reported_kind=J.suppressed + static_suppressed,
         cxx_library_crashes_seen_by_oracle=len(J.cxx_crashes), cxx_library_crash_samples=J.cxx_crashes[:4],
         theorem_count=len(ctx.obligation_names), notes=ctx.notes, total_s=round(time.time() - t0, 1),
         level_note="proof over the regenerated table (tightness, dispatch, constness, Boolean convention, delete, naming); "
